@@ -497,6 +497,7 @@ class Prop(Check):
         "Resolve.C09_order_result_indep",
         "Resolve.C09_files_round_robin",
         "Resolve.C09_files_success_iff_order",
+        "Resolve.C09_files_order_indep",
         "Resolve.C09_query_success_iff_order",
         "Resolve.C09_query_order_valid",
         "Resolve.C09_terminates_any_provider",
